@@ -38,6 +38,7 @@ func expectedString(bs [][]*sIns) string {
 }
 
 func TestC08(t *testing.T) {
+	runWitnesses(t, "C08")
 	col := ev.New("C08", "rapid: address-ordered synthetic instructions of variable length (1-8 bytes) in 1-6 groups with "+
 		"0-5 gaps; instruction pointer writes of every shape (constant, foldable constant, conditional with two constant "+
 		"targets of which one may be the next instruction, register-indirect, conditional with an indirect arm, jump to "+
